@@ -1,0 +1,97 @@
+//go:build verif
+// +build verif
+
+package gmtls
+
+// Verification hooks (build tag "verif" only): thin wrappers exposing message codecs,
+// session tickets and the record-layer half connections to the property harness in /verif.
+
+// VerifNewHandshakeMessage returns a fresh message object for a handshake type
+// (gm selects the GM/T 0024 variant where one exists); nil for unknown types.
+func verifNewHandshakeMessage(typ uint8, gm bool) handshakeMessage {
+	switch typ {
+	case typeHelloRequest:
+		return new(helloRequestMsg)
+	case typeClientHello:
+		return new(clientHelloMsg)
+	case typeServerHello:
+		return new(serverHelloMsg)
+	case typeNewSessionTicket:
+		return new(newSessionTicketMsg)
+	case typeCertificate:
+		return new(certificateMsg)
+	case typeCertificateRequest:
+		if gm {
+			return new(certificateRequestMsgGM)
+		}
+		return &certificateRequestMsg{hasSignatureAndHash: true}
+	case typeCertificateStatus:
+		return new(certificateStatusMsg)
+	case typeServerKeyExchange:
+		return new(serverKeyExchangeMsg)
+	case typeServerHelloDone:
+		return new(serverHelloDoneMsg)
+	case typeClientKeyExchange:
+		return new(clientKeyExchangeMsg)
+	case typeCertificateVerify:
+		return &certificateVerifyMsg{hasSignatureAndHash: !gm}
+	case typeNextProtocol:
+		return new(nextProtoMsg)
+	case typeFinished:
+		return new(finishedMsg)
+	}
+	return nil
+}
+
+// VerifUnmarshalHandshake feeds data (a complete handshake message including its 4-byte
+// header) to the codec of its type. known=false when the type has no codec. When
+// parsing succeeds the message is marshalled again and parsed a second time.
+func VerifUnmarshalHandshake(data []byte, gm bool) (known, ok bool, remarshalled []byte, ok2 bool) {
+	if len(data) < 4 {
+		return false, false, nil, false
+	}
+	m := verifNewHandshakeMessage(data[0], gm)
+	if m == nil {
+		return false, false, nil, false
+	}
+	cp := append([]byte(nil), data...)
+	if !m.unmarshal(cp) {
+		return true, false, nil, false
+	}
+	// marshal caches raw; force a re-encode through a second object where possible
+	out := m.marshal()
+	m2 := verifNewHandshakeMessage(data[0], gm)
+	ok2 = m2.unmarshal(append([]byte(nil), out...))
+	return true, true, out, ok2
+}
+
+// VerifSessionState round-trips a session state through marshal/unmarshal.
+func VerifSessionState(vers, suite uint16, master []byte, certs [][]byte) (encoded []byte, ok bool, equal bool) {
+	s := &sessionState{vers: vers, cipherSuite: suite, masterSecret: master, certificates: certs}
+	encoded = s.marshal()
+	var s2 sessionState
+	ok = s2.unmarshal(encoded)
+	return encoded, ok, ok && s.equal(&s2)
+}
+
+// VerifUnmarshalSessionState parses arbitrary bytes as a session state.
+func VerifUnmarshalSessionState(data []byte) bool {
+	var s sessionState
+	return s.unmarshal(data)
+}
+
+// VerifEncryptTicket seals a session state under cfg's current ticket key.
+func VerifEncryptTicket(cfg *Config, vers, suite uint16, master []byte, certs [][]byte) ([]byte, error) {
+	c := &Conn{config: cfg}
+	return c.encryptTicket(&sessionState{vers: vers, cipherSuite: suite, masterSecret: master, certificates: certs})
+}
+
+// VerifDecryptTicket opens a ticket with cfg's ticket keys.
+func VerifDecryptTicket(cfg *Config, ticket []byte) (ok bool, vers, suite uint16, master []byte, usedOldKey bool) {
+	c := &Conn{config: cfg}
+	s, ok := c.decryptTicket(append([]byte(nil), ticket...))
+	if !ok || s == nil {
+		return false, 0, 0, nil, false
+	}
+	return true, s.vers, s.cipherSuite, s.masterSecret, s.usedOldKey
+}
